@@ -167,12 +167,14 @@ func (w *tcpWorld) awaitFor(where string, budget time.Duration, cond func() bool
 	calm, why, dump := tcpCalm()
 	if calm {
 		hx.Logf("c10 tcp: HANG at %s after %v: every MOSN / net goroutine is parked (%s). Goroutines:\n%s", where, time.Since(start), why, dump)
+		w.hangDump(where, dump)
 		return awHang
 	}
 	if atomic.LoadInt64(&tcpUselessExt) >= 3 {
 		// three extended waits of this process ended without the awaited effect: what is observed are real hangs, the
 		// machine's load is not the reason — no more extensions (a failing run must still end within the check's timeout)
 		hx.Logf("c10 tcp: HANG at %s after %v (not calm: %s; extensions have been useless). Goroutines:\n%s", where, time.Since(start), why, dump)
+		w.hangDump(where, dump)
 		return awHang
 	}
 	hx.Logf("c10 tcp: %s: budget %v exhausted, process not calm (%s): extending the wait", where, time.Since(start), why)
@@ -184,6 +186,7 @@ func (w *tcpWorld) awaitFor(where string, budget time.Duration, cond func() bool
 	atomic.AddInt64(&tcpUselessExt, 1)
 	d, gs := hx.Goroutines()
 	hx.Logf("c10 tcp: HANG at %s after %v (hard cap; goroutine states %s). Goroutines:\n%s", where, time.Since(start), hx.StateSummary(gs), d)
+	w.hangDump(where, d)
 	return awHang
 }
 
@@ -209,24 +212,54 @@ func (w *tcpWorld) waitNoConnections(where string) bool {
 	return false
 }
 
-// staleAccepts drains connections our live hosts accepted beyond the session's own one. Each of them is a dial MOSN
-// gave up (connect timeout 120 ms expired although the kernel had completed the handshake: the dialing goroutine was
-// not scheduled in time) — MOSN counted a failed try on a LIVE host, which the script did not ask for: skew.
-// A stale connection that MOSN never closes would be a leaked upstream connection: it is NOT excused (the script goes on).
-func (w *tcpWorld) staleAccepts() (n int, allClosed bool) {
-	allClosed = true
+// staleAccepts drains connections our live hosts accepted beyond the one the accept step took for the session. Each of
+// them that is at EOF is a dial MOSN gave up (connect timeout 120 ms expired although the kernel had completed the
+// handshake: the dialing goroutine was not scheduled in time) — MOSN counted a failed try on a LIVE host, which the
+// script did not ask for: skew. The step may have taken such a dead connection for the session's: s.up is set to the
+// one that is open. Two OPEN upstream connections for one session would be a leaked upstream connection: NOT excused
+// (extra stays, skew=false: the script goes on and the counters are reported as observed).
+func (w *tcpWorld) staleAccepts(s *tcpSess) (extra int, skew bool) {
+	var all []*tcpUpConn
+	if s != nil && s.up != nil {
+		all = append(all, s.up)
+	}
 	for {
 		select {
 		case u := <-w.accepted:
-			n++
-			if w.awaitFor("stale-accept-eof", time.Second, tcpClosed(u.eof)) != awOK {
-				allClosed = false
-			}
-			u.c.Close()
+			all = append(all, u)
+			extra++
+			continue
 		default:
-			return
 		}
+		break
 	}
+	if extra == 0 {
+		return 0, false
+	}
+	open := func() (o []*tcpUpConn) {
+		for _, u := range all {
+			if !tcpClosed(u.eof)() {
+				o = append(o, u)
+			}
+		}
+		return
+	}
+	w.awaitFor("stale-accept-eof", time.Second, func() bool { return len(open()) <= 1 })
+	o := open()
+	if len(o) > 1 {
+		w.leaked = append(w.leaked, o...)
+		return extra, false
+	}
+	for _, u := range all {
+		if len(o) == 1 && u == o[0] {
+			continue
+		}
+		u.c.Close()
+	}
+	if len(o) == 1 && s != nil {
+		s.up = o[0]
+	}
+	return extra, true
 }
 
 var tcpDropped, tcpRan, tcpUselessExt int64
@@ -240,5 +273,12 @@ func tcpAccount(c *hx.Ctx, dropped bool, n int) {
 	d := atomic.LoadInt64(&tcpDropped)
 	if d > 2 && d*100 > int64(tcpSkewShare)*int64(n) {
 		c.TooSlow(fmt.Sprintf("c10 tcp: %d of %d session scripts (of %d planned) dropped as timing skew (> %d %%)", d, atomic.LoadInt64(&tcpRan), n, tcpSkewShare))
+	}
+}
+
+// hangDump keeps the goroutine dump taken at an `h` (with the script) next to the replay files.
+func (w *tcpWorld) hangDump(where, dump string) {
+	if p := hx.SaveDiag("C10-tcp-hang", fmt.Sprintf("c10 tcp: hang at %s in script: %s\n\n%s", where, w.script, dump)); p != "" {
+		hx.Logf("c10 tcp: goroutine dump kept in %s", p)
 	}
 }
